@@ -55,6 +55,18 @@ def addBlock (l : Ledger) (blockHash : Hash) (recs : List (List UInt8 × List UI
   | none => .error .panic
   | some prev => commit H l prev blockHash recs
 
+/-- A chain: genesis, then blocks `(hash, committed records)` in order. -/
+def addBlocks (l : Ledger) : List (Hash × List (List UInt8 × List UInt8)) → Except Err Ledger
+  | [] => .ok l
+  | b :: bs => match addBlock H l b.1 b.2 with
+    | .error e => .error e
+    | .ok l' => addBlocks l' bs
+
+def chain (g : Hash) (blocks : List (Hash × List (List UInt8 × List UInt8))) : Except Err Ledger :=
+  match genesis H g with
+  | .error e => .error e
+  | .ok l => addBlocks H l blocks
+
 /-- `executeBlock`: the cross-state root stored for (and later committed in the next header for) a block. -/
 def crossRoot (hashes : List Hash) : Except Err Hash :=
   if hashes.length ≠ 0 then hashFullTree H hashes else .ok zeroHash
